@@ -28,7 +28,9 @@ def run(ctx):
     ctx.extra["until_model_behaviours"] = len(scns)
     s2 = rxcommon.drive(ctx, "until", ["-until", 4000 if thorough else 400],
                         "multi-round sequences, NextPackageUntil with scripted callback outcomes (cont/stop/io.EOF/error/nil callback)", env=env)
-    ctx.extra.update({"u2_runs": s0["runs"], "round_runs": s1["runs"], "until_runs": s2["runs"]})
+    s4 = rxcommon.drive(ctx, "reads", ["-reads", 40 if thorough else 6],
+                        "through the reader goroutine, also with a package queue of 1..3 entries and a consumer that starts late (the final DONE must get through)", env=env)
+    ctx.extra.update({"u2_runs": s0["runs"], "round_runs": s1["runs"], "until_runs": s2["runs"], "reader_runs": s4["runs"]})
     ctx.assumptions += [
         "a DONE-family package with status 0 occurs only as the last package of a response (mid-response DONEPROC/DONEINPROC with status 0: open question in DESIGN.md §13); responses that deliver nothing (only informational messages / environment changes) and the empty response are included from the second round on",
         "the return value of NextPackageUntil with a nil callback (io.EOF or nil) is not judged, only that the response is consumed"]
